@@ -10,12 +10,13 @@
    EditState::push_plain_undo                                     push_plain
    EditState::push_undo_action  (= op.redo(self)?; push_plain)    push_action
    EditState::begin_atomic_undo (clears redo, remembers len)      begin_guard
-   AtomicUndoGuard::drop / end  (drain(base..) into AtomicUndo)   end_guard
+   AtomicUndoGuard::drop / end  (drain(base..) into AtomicUndo)   end_guard  (the test `base_count >= count` is Gen.UndoGen.guard_keeps)
    UndoState::undo / redo for EditState                           undo / redo
 
    `st` is everything an operation may touch (buffer, caret, selection, current layer); the stacks are kept apart.
    A failing undo/redo returns Err without a state: the theorems show it cannot happen on a sound history. *)
 From Coq Require Import List ZArith Arith Bool.
+From IE Require Import Gen.UndoGen.
 Import ListNotations.
 
 Inductive res (A : Type) : Type :=
@@ -96,7 +97,7 @@ Section Machinery.
   (* Drop: `if self.base_count >= count { return; }` else drain(base..) into one AtomicUndo (oldest first) *)
   Definition end_guard (base : nat) (e : es) : es :=
     let n := length (ustk e) in
-    if (n <=? base)%nat then e
+    if guard_keeps base n then e
     else let k := (n - base)%nat in mkEs (cur e) (Atomic (rev (firstn k (ustk e))) :: skipn k (ustk e)) (rstk e).
 
   (* guard around a body, as every public operation that opens one does: `let _undo = self.begin_atomic_undo(..); body` *)
